@@ -125,12 +125,16 @@ def gen_pull(rng):
     if rng.random() < 0.3:
         steps.append(rng.choice([1, 2, 3]))
     comps.append({"kind": "time", "start": 0, "steps": steps})
-    links.append({"src": last, "out": 0, "dst": cons, "ads": rng.choice([[], [["scale"]]])})
+    # the links leaving the pull-based component may carry a fixed delay (smaller than the consumer's step, so the
+    # requests reaching the component's sources stay monotone)
+    dly = lambda: [["dfix", rng.randint(1, max(1, min(steps) - 1))]] if min(steps) > 1 else [["dfix", 1]]
+    links.append({"src": last, "out": 0, "dst": cons, "ads": rng.choice([[], [["scale"]], dly(), dly()])})
     r = rng.random()
-    if r < 0.25:
-        # the same consumer reads a second output of the pull-based component (same pace: no fan-out issue)
+    if r < 0.3:
+        # the same consumer reads a second output of the pull-based component (same pace: no fan-out issue),
+        # possibly with a different delay than the first path
         comps[last]["nout"] = 2
-        links.append({"src": last, "out": 1, "dst": cons, "ads": []})
+        links.append({"src": last, "out": 1, "dst": cons, "ads": rng.choice([[], [], dly()])})
     elif r < 0.4 and last != p1:
         # diamond: the consumer also reads the first pull-based component directly
         links.append({"src": p1, "out": 0, "dst": cons, "ads": []})
